@@ -82,6 +82,14 @@ Proof.
   destruct (pick_levels n _ _) as [chosen rem]. destruct (level_word chosen =? 0); lia.
 Qed.
 
+
+(* the hash preimage layouts of the current source (translator: ordered .chain / .update arguments
+   per function) are the layouts the model writes down (Model/HashInputs.v) *)
+From HbsLms Require Model.HashInputs.
+Theorem C10_hash_input_layouts : src_hash_inputs = HashInputs.model_hash_inputs.
+Proof. apply HashInputs.layouts_eqb_eq. vm_compute. reflexivity. Qed.
+
+Print Assumptions C10_hash_input_layouts.
 Print Assumptions C10_cache_is_transparent.
 Print Assumptions C10_cleared_cache_is_good.
 Print Assumptions C10_unused_buffer_contents_are_never_read.
@@ -108,3 +116,32 @@ Theorem C10_sign_same_signature :
 Proof. intros n H blob msg aux cb HL. exact (sign_core_aux_same K_src n H HL blob msg aux cb). Qed.
 
 Print Assumptions C10_sign_same_signature.
+
+(* the same with the side premises discharged: decoded parameter bytes are well-formed rows
+   and the view of ANY buffer exists (Proofs/AuxTotal.v); what remains is "the view is absent or
+   good", i.e. for a MAC-accepted buffer the unforgeability hypothesis *)
+From HbsLms Require Import Proofs.SignProofs Proofs.AuxTotal.
+
+Definition hash_sizes : list nat := [16%nat; 24%nat; 32%nat].
+Lemma source_model_ok : forallb (model_ok K_src) hash_sizes = true.
+Proof. vm_compute. reflexivity. Qed.
+Lemma source_aux_consts_ok : aux_consts_ok K_src = true.
+Proof. vm_compute. reflexivity. Qed.
+
+Theorem C10_sign_same_signature_any_buffer :
+  forall (n : nat) (H : bytes -> bytes) (blob msg aux : bytes) (cb : bytes -> bool),
+    In n hash_sizes -> (forall x, length (H x) = n) ->
+    (forall k p0 r oe aux1,
+        blob_parse K_src n blob = Ok k -> params_of_bytes K_src n (k_params k) = Ok (p0 :: r) ->
+        get_expanded K_src n H aux (k_seed k) (l_h (snd p0)) = Ok (oe, aux1) ->
+        good_view K_src n H (l_h (snd p0)) (snd (root_seed_I K_src H (k_seed k)))
+                  (fst (root_seed_I K_src H (k_seed k))) (fst p0) oe) ->
+    let '(r, calls, _) := sign_core_aux K_src n H blob msg aux cb in
+    (r, calls) = sign_core K_src n H blob msg cb.
+Proof.
+  intros n H blob msg aux cb Hn HL.
+  pose proof source_model_ok as S. rewrite forallb_forall in S.
+  exact (sign_core_aux_same_strong K_src n H HL (S n Hn) source_aux_consts_ok blob msg aux cb).
+Qed.
+
+Print Assumptions C10_sign_same_signature_any_buffer.
